@@ -75,7 +75,18 @@ def handle_event_obligations(chk, prop):
                 d = M.discr(ex_, r)
                 if ex_.branch(d == bv(0)):
                     break
-            return {'self': cell.v, 'polls': polls, 'log': list(ex_.env.get('log', [])), 'input': evv}
+            # an arbitrary (well-formed) scenario key: what the map holds for it before and after the item
+            k2f, k2rd, k2r, k2s = z3.BitVec('K2.f', 64), z3.BitVec('K2.r.d', 64), z3.BitVec('K2.r', 64), z3.BitVec('K2.s', 64)
+            ex_.add(z3.ULT(k2rd, bv(2)))
+            f2, r2, s2 = summ.key_values(k2f, k2rd, k2r, k2s)
+            m_pre = ex_.field_of(sv, None, ix.S['handled_scenarios'], 'HashMap')
+            m_post = ex_.materialize(ex_.field_of(cell.v, None, ix.S['handled_scenarios'], 'HashMap'))
+            kk = M.key_term(ex_, Adt('tuple', {(None, 0): f2, (None, 1): r2, (None, 2): s2}), m_pre.ksh)
+            M.retain_facts(ex_, kk)
+            frame = {'pre': (z3.Select(m_pre.present, kk), z3.Select(m_pre.leaves[0], kk)),
+                     'post': (z3.Select(m_post.present, kk), z3.Select(m_post.leaves[0], kk)) if getattr(m_post, 'kind', None) == 'symmap' else None,
+                     'terms': {'K2.feature': k2f, 'K2.rule?': k2rd, 'K2.rule': k2r, 'K2.scenario': k2s}}
+            return {'self': cell.v, 'polls': polls, 'log': list(ex_.env.get('log', [])), 'input': evv, 'frame': frame}
 
         def on_end(ex_, rec, S=S, E=E, M=M, state_d=state_d, k=k):
             kind, res, pc, dec = rec
@@ -117,6 +128,13 @@ def handle_event_obligations(chk, prop):
             refute(ob('rules=Rule-Started-brackets'), d['rules'] == one(z3.And(inprog, E.rule_ev(ix, 'Started'))))
             others = [n for n in summ.COUNTERS if n not in ('parsing_errors', 'features', 'rules')]
             refute(ob('no-other-counter-touched-outside-handle_scenario'), z3.And(*[d[n] == 0 for n in others]))
+            # only handle_scenario (replaced by a recorder here) may touch the per-scenario indicators: whatever else arrives -
+            # brackets, parser errors, ParsingFinished, run-Started / Finished - leaves every scenario's indicator as it was
+            fr = res.get('frame')
+            if fr is not None and fr['post'] is not None:
+                terms.update(fr['terms'])
+                refute(ob('indicators-touched-by-scenario-events-only'),
+                       z3.And(fr['post'][0] == fr['pre'][0], z3.Implies(fr['pre'][0], fr['post'][1] == fr['pre'][1])))
             refute(ob('nothing-counted-after-run-Finished'), z3.Implies(z3.Not(inprog), z3.And(*[d[n] == 0 for n in summ.COUNTERS])))
             # handle_scenario called exactly for scenario events while InProgress, with the event's own ids
             hs = [e for e in log if e['kind'] == 'handle_scenario']
@@ -164,7 +182,7 @@ def handle_event_obligations(chk, prop):
         ex.explore(run, on_end)
     for name, o in obs.items():
         if o.verdict == 'violated' and name in ('parsing_errors=parser-error-items', 'nothing-counted-after-run-Finished',
-                                                'no-other-counter-touched-outside-handle_scenario'):
+                                                'no-other-counter-touched-outside-handle_scenario', 'indicators-touched-by-scenario-events-only'):
             confirm_event(chk, o, prop, ix, name)
     w = chk.add(Obligation('%s.handle_event.witness' % prop, 'exploration'))
     w.kind = 'witness'
@@ -187,6 +205,8 @@ def confirm_event(chk, o, prop, ix, name):
             return int(str(m.get(k)), 0)
         except (TypeError, ValueError):
             return None
+    if name == 'indicators-touched-by-scenario-events-only':
+        return confirm_frame(chk, o, prop)
     inprog = val('state') == ix.State['InProgress']
     inv = lambda d: {v: k for k, v in d.items()}  # noqa
     if val('res') == 1:
@@ -240,3 +260,38 @@ def confirm_event(chk, o, prop, ix, name):
     else:
         o.verdict = 'inconclusive'
         o.detail += ' | not reproduced natively (%s after %s changes the observable counters as specified)' % (ev, 'run-Started' if inprog else 'run-Finished')
+
+
+def confirm_frame(chk, o, prop):
+    """native: a scenario that is retried twice, with events that are NOT its own (brackets of another rule, a parser error,
+    ParsingFinished) between its attempts: it is still one retried, one passed scenario"""
+    import os
+    from checks import replay
+    d = os.path.join(common.EVID, 'replay')
+    os.makedirs(d, exist_ok=True)
+
+    def attempt(cur, left, how):
+        r = 'r=%d/%d' % (cur, left)
+        return ['ev started ' + r, 'ev step 0 started ' + r, 'ev step 0 %s %s' % (how, r), 'ev finished ' + r]
+    between = [['ev other_rule_started', 'ev other_rule_finished'], ['ev parsing_finished'], ['ev other_rule_started'], ['ev other_rule_finished']]
+    devs = []
+    for in_rule in (0, 1):
+        for k, mid in enumerate(between):
+            lines = ['mode summarize', 'bg 0', 'own 1', 'rule %d' % in_rule, 'ev run_started', 'ev feature_started'] + (['ev rule_started'] if in_rule else [])
+            lines += attempt(0, 2, 'failed panic') + mid + attempt(1, 1, 'failed panic') + mid + attempt(2, 0, 'passed')
+            path = os.path.join(d, '%s-indicators-frame-%d-%d.script' % (prop, in_rule, k))
+            r, out = replay.run_script('\n'.join(lines) + '\n', path)
+            chk.replays += 1
+            if r is None:
+                continue
+            got = {x: r.get(x) for x in ('sc_passed', 'sc_skipped', 'sc_failed', 'sc_retried')}
+            if got != {'sc_passed': 1, 'sc_skipped': 0, 'sc_failed': 0, 'sc_retried': 1}:
+                devs.append((path, 'scenario %s retried twice then passed, with [%s] between its attempts: counted %s (one passed, one retried scenario expected)'
+                             % ('in a rule' if in_rule else 'at top level', ', '.join(x[3:] for x in mid), got)))
+    if devs:
+        chk.replay_files.append(devs[0][0])
+        o.replay = devs[0][0]
+        o.detail += ' | reproduced natively with the real Summarize: %s' % devs[0][1]
+    else:
+        o.verdict = 'inconclusive'
+        o.detail += ' | not reproduced natively (events of other brackets between the attempts of a retried scenario do not change how it is counted)'
